@@ -65,6 +65,7 @@ func init() {
 			{ID: "C01-R37", Title: "derived operands are derived last (shared with C16-R32)", Floor: 1, Run: derivedOperandsAreDerivedLast},
 			{ID: "C01-R38", Title: "names are read from their storage (shared with C18-R25)", Floor: 3, Run: namesAreReadFromTheirStorage},
 			{ID: "C01-R39", Title: "the target of a compound assignment is read before the value is evaluated", Floor: 3, Run: theTargetOfACompoundAssignmentIsReadBeforeTheValueIsEvaluated},
+			{ID: "C01-R40", Title: "an entry has a key and a value of its own", Floor: 4, Run: anEntryHasAKeyAndAValueOfItsOwn},
 		},
 	})
 }
